@@ -481,6 +481,28 @@ def huge_and_mutating_sources():
     return out
 
 
+def builtin_constructor_sources():
+    """The classes of the primitive values called like constructors (by name, through cls() of a value, through the
+    meta class of a class): whatever comes back must not be taken for the primitive by that class's natives."""
+    out = []
+    ctors = {"List": ("List()", ["len()", "push(1)", "str()"]), "list-cls": ("[].cls()()", ["len()", "pop()"]),
+             "Map": ("Map()", ["len()", "str()", "set(1, 2)"]), "String": ("String()", ["len()", "up()", "str()"]),
+             "string-cls": ("'a'.cls()()", ["len()"]), "Number": ("Number()", ["floor()", "str()", "times()"]),
+             "Tuple": ("Tuple()", ["len()", "str()"]), "Iter": ("Iter()", ["next()", "list()"]),
+             "iter-cls": ("[].iter().cls()()", ["next()"]), "Channel": ("Channel()", ["len()", "close()"]),
+             "Fun": ("Fun()", ["name()", "call()"]), "Method": ("Method()", ["name()"]), "Native": ("Native()", ["name()"]),
+             "native-cls": ("print.cls()()", ["name()"]), "Class": ("Class()", ["name()", "superCls()", "str()"]),
+             "meta-of-builtin": ("Error.cls()()", ["name()", "str()"]), "meta-of-user": ("A.cls()()", ["name()", "str()"]),
+             "Bool": ("Bool()", ["str()"]), "Nil": ("Nil()", ["str()"]), "Closure": ("Closure()", ["name()"]),
+             "Module": ("Module()", ["str()"]), "Object": ("Object()", ["str()"])}
+    for name, (ctor, calls) in sorted(ctors.items()):
+        for call in calls + ["print"]:
+            use = "print(x);" if call == "print" else "print(x.%s);" % call
+            out.append(("builtin-constructor-%s-%s" % (name, call.split("(")[0]),
+                        "class A {}\ntry { let x = %s; %s } catch e { print(e.cls().name()); }\nprint(\"end\");" % (ctor, use)))
+    return out
+
+
 def recursion_sources():
     out = []
     for name, (decl, start) in sorted(RECURSIONS.items()):
@@ -500,7 +522,7 @@ def recursion_sources():
 def extra(tier, ctx):
     out = []
     for name, src in sorted(SHAPES.items()) + recursion_sources() + field_corruption_sources() + blocked_in_callback_sources() + bad_superclass_sources() + \
-            native_as_callback_sources() + odd_channel_sources() + inconsistent_comparator_sources() + huge_and_mutating_sources():
+            native_as_callback_sources() + odd_channel_sources() + inconsistent_comparator_sources() + huge_and_mutating_sources() + builtin_constructor_sources():
         o = run_source(src, ctx, "shape:" + name, "shape " + name)
         o.nontrivial = True
         o.labels = ["shape"]
